@@ -27,13 +27,15 @@ EXTENDS Semantics      \* JSON values: JNull JBool JNum JInt JStr JArr JObj P
 
 \* ------------------------------------------------------------------ the requirement
 \* outcome of one run: "files" | "error" | "panic" | "crash" (the process died: stack overflow, fatal error) | "timeout"
+\* (the same input exceeded the bound twice) | "timeout-once" (exceeded once and was not run again: reading rule of
+\* DESIGN 6.0, "only reported after the same input timed out twice" - neither a regular outcome nor a violation)
 Outcome(r)   == r.outcome \in {"files", "error"}
 BoundedMs    == 20000
 InTime(r)    == r.ms <= BoundedMs
 C04Holds(r)  == Outcome(r) /\ InTime(r)
 Violated(r)  == (IF r.outcome \in {"panic", "crash"} THEN {"panic"} ELSE {})
-                \cup (IF r.outcome = "timeout" \/ ~InTime(r) THEN {"hang"} ELSE {})
-                \cup (IF r.outcome \notin {"files", "error", "panic", "crash", "timeout"} THEN {"ill-typed-record"} ELSE {})
+                \cup (IF r.outcome = "timeout" \/ (r.outcome \in {"files", "error"} /\ ~InTime(r)) THEN {"hang"} ELSE {})
+                \cup (IF r.outcome \notin {"files", "error", "panic", "crash", "timeout", "timeout-once"} THEN {"ill-typed-record"} ELSE {})
 
 \* ------------------------------------------------------------------ sites and edits of a JSON value
 \* a path is a sequence of steps [o |-> i] (i-th member of an object) / [a |-> i] (i-th element of an array)
